@@ -855,20 +855,16 @@ func (z *Decimal) FMA(x, y, u *Decimal) *Decimal {
 		}
 		e -= dnorm(z0.mant)
 		z0.acc = Exact
-		switch {
-		case e < MinExp:
-			// underflow
-			z0.acc = makeAcc(z0.neg)
-			z0.form = zero
-		case e > MaxExp:
-			// overflow
-			z0.acc = makeAcc(!z0.neg)
-			z0.form = inf
-		default:
-			z0.form = finite
+		z0.form = finite
+		if MinExp <= e && e <= MaxExp {
 			z0.exp = int32(e)
+			return z.Add(z0, u)
 		}
-		return z.Add(z0, u)
+		// The exponent of x·y is outside the range, but that of x·y + u need
+		// not be, and even a product far too small to represent decides how
+		// u is rounded: it must not be turned into an infinity or a zero
+		// before the addition. (u is finite and not zero here.)
+		return z.fmaWide(z0, e, u)
 	}
 
 	if x.form == zero && y.form == inf || x.form == inf && y.form == zero {
@@ -892,6 +888,89 @@ func (z *Decimal) FMA(x, y, u *Decimal) *Decimal {
 	// ±0 * y + u
 	// x * ±0 + u
 	return z.Set(u)
+}
+
+// fmaWide sets z to p×10**(e-p.exp) + u rounded once, where p holds the sign
+// and the normalized mantissa of a product whose exponent e lies outside
+// [MinExp, MaxExp] and u is finite and not zero. p may be z, and so may u.
+func (z *Decimal) fmaWide(p *Decimal, e int64, u *Decimal) *Decimal {
+	// Add with both exponents shifted by b, which puts the product at the
+	// end of the exponent range, and shift the sum back.
+	b := e - MaxExp
+	if e < MinExp {
+		b = e - MinExp
+	}
+	ue := int64(u.exp) - b
+	switch {
+	case ue < MinExp:
+		// (b > 0) u lies more than 2**32 digits below the product: it cannot
+		// bring the sum back into range
+		z.neg = p.neg
+		z.acc = makeAcc(!z.neg)
+		z.form = inf
+		return z
+
+	case ue >= MaxExp:
+		// (b < 0) The product lies at least 2**32-1 digits below u's leading
+		// digit, that is below all of u's digits and below z's rounding
+		// position: the sum is u, a hair more or a hair less. (This includes
+		// ue == MaxExp, which would leave no room for a carry below.) Round u with
+		// enough zero digits below it for the sticky bit to count, after
+		// borrowing one unit of the last of them if the product is subtracted.
+		sub := p.neg != u.neg
+		mode := z.mode
+		if u.MinPrec() <= uint(z.prec) {
+			// u needs no rounding itself. Unless the mode rounds away from u
+			// in the direction of the product, the result is u, inexact.
+			towardZero := mode == ToZero || mode == ToPositiveInf && u.neg || mode == ToNegativeInf && !u.neg
+			if mode == ToNearestEven || mode == ToNearestAway || towardZero != sub {
+				acc := makeAcc(p.neg) // (p may be z)
+				z.Set(u)
+				z.acc = acc
+				return z
+			}
+		}
+		n := int(z.prec/_DW) + 2
+		if len(u.mant) >= n {
+			n = len(u.mant) + 1
+		}
+		uexp, uneg, m := u.exp, u.neg, len(u.mant)
+		mant := z.mant.make(n) // if this is u.mant, copy moves it up in place
+		copy(mant[n-m:], u.mant)
+		mant[:n-m].clear()
+		if sub {
+			sub10VW(mant, mant, 1)
+		}
+		z.mant = mant
+		z.neg = uneg
+		z.mode = mode
+		z.form = finite
+		z.setExpAndRound(int64(uexp)-dnorm(z.mant), 1)
+		return z
+	}
+	p.exp = int32(e - b)
+	u2 := *u // (shares u's mantissa, which is only read)
+	u2.exp = int32(ue)
+	z.Add(p, &u2)
+	if z.form != finite {
+		return z
+	}
+	// shift back
+	switch t := int64(z.exp) + b; {
+	case t > MaxExp:
+		// overflow
+		z.acc = makeAcc(!z.neg)
+		z.form = inf
+	case t < MinExp, t == MinExp && z.acc == makeAcc(!z.neg) && z.MinPrec() == 1 && z.mant[len(z.mant)-1] == _DB/10:
+		// underflow (also when the sum was only rounded up to 10**(MinExp-1),
+		// the smallest magnitude there is: like everywhere else, it is the
+		// exact sum that decides)
+		z.acc = makeAcc(z.neg)
+		z.form = zero
+	default:
+		z.exp = int32(t)
+	}
+	return z
 }
 
 // Neg sets z to the (possibly rounded) value of x with its sign negated,
